@@ -96,6 +96,15 @@ CHECKS = {
         "every cell index is proved within [0,N-1].",
    note="Not decided (needs execution/geometry): completeness of the cell scan for all cell counts and triclinic shapes, "
         "exactly-once delivery across cells, construction of exclusions from bonded interactions."),
+ "C04": dict(cat="proof", ref="DESIGN.md section 4 C04",
+   technique="symbolic folding of the merge / normalisation / covariance code and exact comparison with the property's formulas; accumulator-reset completeness (sibling set inclusion); call-order and dominance checks for block output and per-frame clearing",
+   text="Decides for every trajectory: frame averages are ((n-1)avg+cur)/n with the incremented frame count (distributions, forces, "
+        "correlation blocks, box volume); the two-body output is V norm n(r)/(4/3 pi (x2^3-x1^3)) with the exact shell volume and "
+        "CalcDeltaS applies its exact inverse to the target; bonded/three-body outputs are normalised to unit integral; the IMC block is "
+        "-(<SiSj>-<Si><Sj>^T) mirrored by transpose; every accumulator updated while merging is reset by ClearAverages; block output "
+        "writes before clearing; per-frame histograms are cleared before filling; values go to the nearest bin centre.",
+   note="Identities of formulas in the current source. Not decided: agreement with an independent recomputation on data, the pair "
+        "search (C03), bin memory safety (C13), the norm_ factors set in BeginEvaluate (2/(N1N2) vs 1/(N1N2))."),
 }
 NA = {
 }
